@@ -275,4 +275,174 @@ theorem freeze_deepFrozen (F : Facts) (hF : F.freezeKeepsElems = false) (n : Nat
     (h : (freeze F n v).run st = .ok (v', st')) : Ext st st' ∧ deepFrozen st' n v' = true :=
   (freeze_spec F hF n).1 v st v' st' h
 
+/-! ### What a subinclude hands out -/
+
+/-- A list or dict is a frozen wrapper (anything else passes). -/
+def topFrozen : Val → Bool
+  | .list fz _ _ _ _ => fz
+  | .dict fz _ => fz
+  | _ => true
+
+/-- Whatever `freeze` returns is, at the top level, a frozen wrapper — for every facts record. -/
+theorem freeze_topFrozen (F : Facts) (n : Nat) (v v' : Val) (st st' : St)
+    (h : (freeze F n v).run st = .ok (v', st')) : topFrozen v' = true := by
+  cases n with
+  | zero => simp only [freeze] at h; exact absurd h (fail_run _ _ _)
+  | succ f =>
+    cases v with
+    | list fz arr off len cap =>
+      simp only [freeze] at h
+      rw [run_bind_ok] at h; obtain ⟨xs, s1, _, h⟩ := h
+      rw [run_bind_ok] at h; obtain ⟨fr, s2, _, h⟩ := h
+      by_cases hk : F.freezeKeepsElems = true
+      · simp only [hk, if_true] at h; rw [run_pure_ok] at h; cases h; rfl
+      · simp only [hk, Bool.false_eq_true, if_false] at h
+        rw [run_bind_ok] at h; obtain ⟨a, s3, _, h⟩ := h
+        rw [run_pure_ok] at h; cases h; rfl
+    | dict fz d =>
+      simp only [freeze] at h
+      rw [run_bind_ok] at h; obtain ⟨m, s1, _, h⟩ := h
+      rw [run_bind_ok] at h; obtain ⟨kvs, s2, _, h⟩ := h
+      rw [run_bind_ok] at h; obtain ⟨id, s3, _, h⟩ := h
+      rw [run_pure_ok] at h; cases h; rfl
+    | _ => simp only [freeze] at h; rw [run_pure_ok] at h; cases h; rfl
+
+theorem freezeKvs_topFrozen (F : Facts) : ∀ (n : Nat) (m m' : List (String × Val)) (st st' : St),
+    (freezeKvs F n m).run st = .ok (m', st') → m'.map (·.1) = m.map (·.1) ∧ ∀ e ∈ m', topFrozen e.2 = true := by
+  intro n
+  induction n with
+  | zero => intro m m' st st' h; simp only [freezeKvs] at h; exact absurd h (fail_run _ _ _)
+  | succ f ih =>
+    intro m m' st st' h
+    cases m with
+    | nil => simp only [freezeKvs] at h; rw [run_pure_ok] at h; cases h; simp
+    | cons e r =>
+      obtain ⟨k, x⟩ := e
+      simp only [freezeKvs] at h
+      rw [run_bind_ok] at h; obtain ⟨x', s1, h1, h⟩ := h
+      rw [run_bind_ok] at h; obtain ⟨r', s2, h2, h⟩ := h
+      rw [run_pure_ok] at h; cases h
+      obtain ⟨hk, hv⟩ := ih r r' _ _ h2
+      refine ⟨by simp [hk], ?_⟩
+      intro e he
+      rcases List.mem_cons.1 he with rfl | he'
+      · exact freeze_topFrozen F f x x' st s1 h1
+      · exact hv e he'
+
+/-- **What a subinclude hands out is frozen at the top level**: after `scope.Freeze()` every variable of the scope
+    that holds a list or a dict holds a frozen wrapper (every facts record, every heap). -/
+theorem freezeScope_exports_frozen (F : Facts) (sc : Nat) (st st' : St) (u : Unit)
+    (h : (freezeScope F sc).run st = .ok (u, st')) :
+    ∀ s', st'.scopes[sc]? = some s' → ∀ e ∈ s'.vars, topFrozen e.2 = true := by
+  unfold freezeScope at h
+  rw [run_bind_ok] at h; obtain ⟨st0, s1, h0, h⟩ := h
+  have : st0 = st ∧ s1 = st := by
+    simp only [get, getThe, MonadStateOf.get, StateT.get, StateT.run, pure, Except.pure] at h0
+    cases h0; exact ⟨rfl, rfl⟩
+  rw [this.1, this.2] at h
+  cases hs : st.scopes[sc]? with
+  | none => simp only [hs] at h; exact absurd h (fail_run _ _ _)
+  | some s =>
+    simp only [hs] at h
+    rw [run_bind_ok] at h; obtain ⟨vars, s2, h2, h⟩ := h
+    obtain ⟨_, hv⟩ := freezeKvs_topFrozen F 64 s.vars vars st s2 h2
+    simp only [modify, modifyGet, MonadStateOf.modifyGet, StateT.modifyGet, StateT.run, pure, Except.pure] at h
+    cases h
+    intro s' hs' e he
+    simp only [List.getElem?_set] at hs'
+    by_cases hl : sc < s2.scopes.length
+    · simp [hl] at hs'; subst hs'; exact hv e he
+    · simp [hl] at hs'
+
+/-! ### What today's `Freeze` (a wrapper around the original elements) does get right: flat lists -/
+
+def scalar : Val → Bool
+  | .int _ | .str _ | .bool _ | .none => true
+  | _ => false
+
+theorem freeze_scalar (F : Facts) (f : Nat) (v v' : Val) (st st' : St) (hs : scalar v = true)
+    (h : (freeze F f v).run st = .ok (v', st')) : st' = st ∧ v' = v := by
+  cases f with
+  | zero => simp only [freeze] at h; exact absurd h (fail_run _ _ _)
+  | succ f =>
+    cases v <;> simp [scalar] at hs <;> (simp only [freeze] at h; rw [run_pure_ok] at h; cases h; exact ⟨rfl, rfl⟩)
+
+theorem freezeList_scalars (F : Facts) : ∀ (f : Nat) (xs ys : List Val) (st st' : St),
+    xs.all scalar = true → (freezeList F f xs).run st = .ok (ys, st') → st' = st ∧ ys = xs := by
+  intro f
+  induction f with
+  | zero => intro xs ys st st' _ h; simp only [freezeList] at h; exact absurd h (fail_run _ _ _)
+  | succ f ih =>
+    intro xs ys st st' hs h
+    cases xs with
+    | nil => simp only [freezeList] at h; rw [run_pure_ok] at h; cases h; exact ⟨rfl, rfl⟩
+    | cons x r =>
+      simp only [List.all_cons, Bool.and_eq_true] at hs
+      simp only [freezeList] at h
+      rw [run_bind_ok] at h; obtain ⟨x', s1, h1, h⟩ := h
+      rw [run_bind_ok] at h; obtain ⟨r', s2, h2, h⟩ := h
+      rw [run_pure_ok] at h; cases h
+      obtain ⟨e1, e2⟩ := freeze_scalar F f x x' st s1 hs.1 h1
+      subst e1; subst e2
+      obtain ⟨e3, e4⟩ := ih r r' _ _ hs.2 h2
+      subst e3; subst e4
+      exact ⟨rfl, rfl⟩
+
+theorem deepFrozen_scalar (st : St) (n : Nat) (v : Val) (hs : scalar v = true) : deepFrozen st (n + 1) v = true := by
+  cases v <;> simp [scalar] at hs <;> rfl
+
+/-- **Today's `Freeze` on a flat list without spare capacity**: the heap is left as it is, the result is the
+    frozen wrapper of the same slice, and it is frozen all the way down (there is no further level). -/
+theorem freeze_today_flat (F : Facts) (hk : F.freezeKeepsElems = true) (n : Nat) (fz : Bool) (arr off len : Nat)
+    (st st' : St) (v' : Val) (l : List Val) (hl : st.arrays[arr]? = some l)
+    (hflat : ((l.drop off).take len).all scalar = true)
+    (h : (freeze F (n + 2) (.list fz arr off len len)).run st = .ok (v', st')) :
+    st' = st ∧ v' = .list true arr off len len ∧ deepFrozen st' (n + 2) v' = true := by
+  simp only [freeze] at h
+  rw [run_bind_ok] at h; obtain ⟨xs, s1, h1, h⟩ := h
+  obtain ⟨e1, l', hl', hx⟩ := elems_run h1
+  subst e1
+  rw [hl] at hl'; cases hl'
+  rw [run_bind_ok] at h; obtain ⟨fr, s2, h2, h⟩ := h
+  obtain ⟨e2, _⟩ := freezeList_scalars F (n + 1) xs fr _ _ (hx ▸ hflat) h2
+  subst e2
+  simp only [hk, if_true] at h
+  rw [run_pure_ok] at h; cases h
+  refine ⟨rfl, rfl, ?_⟩
+  simp only [deepFrozen, hl, Bool.true_and, beq_self_eq_true]
+  rw [List.all_eq_true] at hflat ⊢
+  intro x hx'
+  exact deepFrozen_scalar _ n x (hflat x hx')
+
+/-! ### `+` on a list without spare capacity never writes -/
+
+theorem mkList_ext {vs : List Val} {st st' : St} {v : Val} (h : (mkList vs).run st = .ok (v, st')) : Ext st st' := by
+  unfold mkList at h
+  rw [run_bind_ok] at h; obtain ⟨a, s1, h1, h⟩ := h
+  obtain ⟨_, hs⟩ := allocArr_run h1
+  rw [run_pure_ok] at h; cases h
+  exact ⟨⟨[vs], by rw [hs]⟩, ⟨[], by rw [hs]; simp⟩⟩
+
+/-- The sum of a list whose capacity is its length: the heap is only extended (a new array for the sum), whatever
+    the facts say about `append` — there is no room to append into. -/
+theorem listAppend_exact_cap (F : Facts) (arr off len : Nat) (ys : List Val) (st st' : St) (v : Val)
+    (h : (listAppend F arr off len len ys).run st = .ok (v, st')) : Ext st st' := by
+  unfold listAppend at h
+  by_cases ha : F.addAppends = true
+  · simp only [ha, if_true] at h
+    by_cases hn : (ys.length == 0) = true
+    · simp only [hn, if_true] at h; rw [run_pure_ok] at h; cases h; exact Ext.refl _
+    · simp only [hn, Bool.false_eq_true, if_false] at h
+      have hlen : ¬ (len + ys.length ≤ len) := by
+        have : ys.length ≠ 0 := by simpa using hn
+        omega
+      simp only [hlen, if_false] at h
+      rw [run_bind_ok] at h; obtain ⟨xs, s1, h1, h⟩ := h
+      have := (elems_run h1).1; subst this
+      exact mkList_ext h
+  · simp only [ha, Bool.false_eq_true, if_false] at h
+    rw [run_bind_ok] at h; obtain ⟨xs, s1, h1, h⟩ := h
+    have := (elems_run h1).1; subst this
+    exact mkList_ext h
+
 end PlzVerif.Asp
